@@ -642,6 +642,7 @@ _S = "svg"
 VARIANTS = [
     Variant("reverted-fix F6: no cycle pre-check", [Edit(_S, "SVG._resolve_use", "        self._check_use_acyclic(scope_el, el_by_id, frozenset(), set())\n", "")],
             [("R-TERM.refwalk", "_resolve_use"), ("R-TERM.refwalk", "topicosvg")]),
+    Variant("resolve_entities decided by a scan of the text that misses SYSTEM entities", [Edit(_S, "SVG.fromstring", "resolve_entities=False", 'resolve_entities=("<!ENTITY" in string and "PUBLIC" not in string)')], [("R-EFFECT.xml-entry", "fromstring")]),
     Variant("resolve_entities=True", [Edit(_S, "SVG.fromstring", "resolve_entities=False", "resolve_entities=True")], [("R-EFFECT.xml-entry", "fromstring")]),
     Variant("traverse pushes siblings", [Edit(_S, "SVG._traverse", "            for child in context.element:", "            for child in context.element.getparent() or context.element:")],
             [("R-TERM.loop", "_traverse"), ("R-TERM", "topicosvg")]),
